@@ -16,9 +16,9 @@ func init() {
 	register(&core.Property{
 		ID:         "C15",
 		Title:      "Vectorized execution returns what row execution returns",
-		Decides:    "(sibling agreement only) with the feature flag off the vectorized dispatcher returns 'not handled' before doing anything else; the columnar frame encoder and decoder handle the same column types; the row and the vectorized engines derive sort directions from the request in the same way (same constant, same operator, per source field); the per-node limit template of the vectorized distributed plan applies the default limit before adding the offset, like the row plan.",
-		NotDecided: "response equality for any query (translation validation, out of this family), error-boundary parity, the row-window arithmetic of batch copies, parity of the vectorized merge/top-N comparators with the row heaps (their bodies mix type assertions and multi-kind values outside the comparison-only fragment).",
-		Technique:  "dominance of the flag exit, case-set agreement, cross-package agreement of enum comparisons, comparator truth tables, SSA def-use of the node limit",
+		Decides:    "(sibling agreement only) with the feature flag off the vectorized dispatcher returns 'not handled' before doing anything else; the columnar frame encoder and decoder handle the same column types; the row and the vectorized engines derive sort directions from the request in the same way (same constant, same operator, per source field); the per-node limit template of the vectorized distributed plan applies the default limit before adding the offset, like the row plan; the measure block cursor's row copy (copyAllTo) and its columnar twin (copyAllToBatch) take the same canonical row window and count.",
+		NotDecided: "response equality for any query (translation validation, out of this family), error-boundary parity, parity of the vectorized merge/top-N comparators with the row heaps (their bodies mix type assertions and multi-kind values outside the comparison-only fragment).",
+		Technique:  "dominance of the flag exit, case-set agreement, cross-package agreement of enum comparisons, comparator truth tables, SSA def-use of the node limit, canonical symbolic expression equality between twins",
 		Run:        runC15,
 	})
 }
@@ -166,4 +166,62 @@ func runC15(c *core.Ctx) {
 			r.Check(ok, rule, ssax.FuncName(f)+": node Limit = (limit or default) + offset", pos, "an unset limit must become the default before the offset is added, otherwise nodes are asked for 'offset' rows only")
 		}
 	}
+
+	// the row copy and its columnar twin take the same window of the block cursor
+	{
+		rule := "c15.row-batch-window"
+		const m = "banyand/measure"
+		windows := func(f *ssa.Function) (map[string]bool, map[string]bool) {
+			sl, sz := map[string]bool{}, map[string]bool{}
+			for _, b := range f.Blocks {
+				for _, in := range b.Instrs {
+					switch x := in.(type) {
+					case *ssa.Slice:
+						v := x.X
+						if l, ok := v.(*ssa.UnOp); ok {
+							v = l.X
+						}
+						if fv := ssax.FieldOf(v); fv != nil && fv.Name() == "timestamps" && strings.HasPrefix(ssax.Path(v), "recv.") {
+							sl["["+ssax.Canon(x.Low)+":"+ssax.Canon(x.High)+"]"] = true
+						}
+					case *ssa.BinOp:
+						_, px := x.X.(*ssa.Phi)
+						_, py := x.Y.(*ssa.Phi)
+						_, cx := x.X.(*ssa.Const)
+						_, cy := x.Y.(*ssa.Const)
+						if x.Op == token.SUB && (px || py) && !cx && !cy {
+							sz[ssax.Canon(x)] = true
+						}
+					}
+				}
+			}
+			return sl, sz
+		}
+		row, bat := r.fn(rule, m, "(*blockCursor).copyAllTo"), r.fn(rule, m, "(*blockCursor).copyAllToBatch")
+		if row != nil && bat != nil {
+			rs, rz := windows(row)
+			bs, bz := windows(bat)
+			construct := "copyAllTo / copyAllToBatch: same cursor window"
+			switch {
+			case len(rs) == 0 || len(bs) == 0 || len(rz) == 0 || len(bz) == 0:
+				r.Undecide(rule, construct, r.fpos(bat), "window expressions not found in one of the twins")
+			case !sameKeys(rs, bs) || !sameKeys(rz, bz):
+				r.Violate(rule, construct, r.fpos(bat), fmt.Sprintf("the row engine copies timestamps%v (count %v), the columnar engine timestamps%v (count %v): once a block cursor has been advanced the two engines return different rows for the same query", sortedKeys(rs), sortedKeys(rz), sortedKeys(bs), sortedKeys(bz)))
+			default:
+				r.Hold(rule, construct, r.fpos(bat), fmt.Sprintf("timestamps%v, count %v", sortedKeys(rs), sortedKeys(rz)))
+			}
+		}
+	}
+}
+
+func sameKeys(a, b map[string]bool) bool {
+	if len(a) != len(b) {
+		return false
+	}
+	for k := range a {
+		if !b[k] {
+			return false
+		}
+	}
+	return true
 }
